@@ -23,7 +23,7 @@ func init() {
 	register(&Prop{
 		ID:    "C12",
 		Title: "Routers deliver each request to the client registered under its name",
-		Explanation: "R12.1 every checked-in *_router.pb.go and *_wrap.pb.go is an instance of the current template: the template file is rendered inside the checker with a model rebuilt from type information (names from the file's own compile-time assertion, methods and their streaming shape from the service's Server interface in declaration order) and compared with the file as go/scanner token streams (imports excluded). R12.2 for every go:generate directive under pkg/trait every service of the named proto has a router and a wrapper in that package and the router declares (does not inherit) every RPC of the service with the interface's signature. R12.3 forwarding semantics of every router method on SSA: lookup by request.Name, lookup errors returned untouched, the same request forwarded to the same method, unary results returned as is; streams run on a context derived from the caller's stream, forward the header before the first message, forward each received message itself, set the trailer, map io.EOF to nil and cancel the child when the caller cannot be sent to. R12.4 the registry's decision tables (Add returns the previous client, Remove the removed one and deletes only what is present, Get: registry, then fallback, then factory with a re-check under the exclusive lock, Auto change only when inserted, miss is NotFound) with callbacks and factories invoked under no lock. R12.5 replaceEmptyNameField sets the name only on the path where the message has a string field `name` whose value is empty. Does NOT decide the behaviour of generated gRPC client/stream code or of protoc, nor that the generators' main.go would emit these bytes (they are not run; file naming and import layout are outside the comparison).",
+		Explanation: "R12.1 every checked-in *_router.pb.go and *_wrap.pb.go is an instance of the current template: the template file is rendered inside the checker with a model rebuilt from type information (names from the file's own compile-time assertion, methods and their streaming shape from the service's Server interface in declaration order) and compared with the file as go/scanner token streams (imports excluded). R12.2 for every go:generate directive under pkg/trait every service of the named proto has a router and a wrapper in that package and the router declares (does not inherit) every RPC of the service with the interface's signature. R12.3 forwarding semantics of every router method on SSA: lookup by request.Name, lookup errors returned untouched, the same request forwarded to the same method, unary results returned as is; streams run on a context derived from the caller's stream, forward the header before the first message, forward each received message itself, set the trailer, map io.EOF to nil and cancel the child when the caller cannot be sent to. R12.4 the registry's decision tables (Add returns the previous client, Remove the removed one and deletes only what is present, Get: registry, then fallback, then factory with a re-check under the exclusive lock, Auto change only when inserted, miss is NotFound) with callbacks and factories invoked under no lock. R12.5 replaceEmptyNameField sets the name only on the path where the message has a string field `name` whose value is empty. R12.4 also: the error returned with a found client is nil or that lookup's own error result. R12.6 both generators execute the service template in every iteration over a file's services. Does NOT decide the behaviour of generated gRPC client/stream code or of protoc, nor that the generators' main.go would emit these bytes (they are not run; file naming and import layout are outside the comparison).",
 		Assumptions: []string{"text/template semantics; the template model mirrors cmd/protoc-gen-router/main.go newServiceModel and cmd/protoc-gen-wrapper/main.go", "grpc ClientStream/ServerStream contracts"},
 		Run:         runC12,
 		Controls: []Control{
